@@ -71,6 +71,7 @@ def engine_evaluation_order(ctx):
 
 
 def run(ctx):
+    detector_walk_every_tick(ctx, "C02")
     # locals / parameters the rules below refer to by name (a rename makes the analysis 'broken', never a violation)
     ctx.anchor(ctx.fn1('Oomd::Engine::Ruleset::runOnceImpl'), 'run_actions', 'dg', 'context')
     ctx.anchor(ctx.fn1('Oomd::Engine::Engine::runOnce'), 'base', 'dropin')
@@ -382,6 +383,8 @@ def run(ctx):
                       "ASYNC_PAUSED does not save-and-return on every path")
 
     engine_evaluation_order(ctx)
+    from .C11 import instance_keeps_order
+    instance_keeps_order(ctx)
     ctx.floor("engine_calls", 4, "Ruleset::prerun/runOnce calls in Engine")
     ctx.floor("virtual_run_sites", 2, "virtual BasePlugin::run call sites")
     ctx.floor("virtual_prerun_sites", 2, "virtual BasePlugin::prerun call sites")
